@@ -107,8 +107,10 @@ let () = iter_lines (fun line ->
         Stdlib.List.iter (fun c -> match Gen_List.pvGetOffset (coq_GetVertices lz) s.codeParam s.addends s.totalSize s.alignment (z_of_string c) with
           | GenPrelude.Ok o -> Buffer.add_string buf (" " ^ zs o) | _ -> Buffer.add_string buf " ASSERT") !added;
         Buffer.add_string buf " |";
-        Stdlib.List.iter (fun c -> match contains lz s (z_of_string c) with
-          | Some o -> Buffer.add_string buf (" " ^ zs o) | None -> Buffer.add_string buf " -") !universe;
+        (* Contains(info, &offset): the cxx2coq translation of the real Contains on the model's members (non-null resOffset);
+           the harness also checks that Contains(info) without resOffset gives the same answer *)
+        Stdlib.List.iter (fun c -> match contains_gen lz s (z_of_int 1) (z_of_string c) with
+          | (true, o) -> Buffer.add_string buf (" " ^ zs o) | (false, _) -> Buffer.add_string buf " -") !universe;
         Buffer.add_string buf " |";
         Stdlib.List.iter (fun v -> let a = s.addends v in
           if zs a <> "0" then Buffer.add_string buf (Printf.sprintf " %s:%s" (zs v) (zs a))) verts;
